@@ -13,8 +13,8 @@ type heapToken struct{ _ int }
 // MapData is the payload of a map object. Iteration order is decided by the
 // engine's MapOrder policy, not by Keys order.
 type MapData struct {
-	Keys []string // canonical keys in insertion order
-	M    map[string]*MapEntry
+	Keys    []string // canonical keys in insertion order
+	M       map[string]*MapEntry
 	SymKeys bool // some key has symbolic bytes: lookups compare keys one by one
 }
 
@@ -150,34 +150,34 @@ type State struct {
 	docRes  map[int]Value // doc node id -> resolved concrete-shaped value
 	choices []Choice
 
-	locks map[int]bool    // mutex object id -> held
-	pools map[int][]Value // pool object id -> free list
+	locks map[int]bool     // mutex object id -> held
+	pools map[int][]Value  // pool object id -> free list
 	holes map[string]Value // numeral text -> symbolic value
 
-	panicVal  Value
-	panicSet  bool
-	Status    PathStatus
-	AbortMsg  string
-	Viol      []Violation
-	Fuel      int
-	Depth     int
-	Log       []string          // harness log lines (zzLog)
-	Out       map[string]string // harness outputs
-	Epoch     int
-	W         *Worker
-	AccessLog *AccessLog
-	Tree      map[int]bool // objects reachable from the parsed function (C05 frame)
-	treeSnap  map[int]string
-	globSnap  map[int]string
+	panicVal   Value
+	panicSet   bool
+	Status     PathStatus
+	AbortMsg   string
+	Viol       []Violation
+	Fuel       int
+	Depth      int
+	Log        []string          // harness log lines (zzLog)
+	Out        map[string]string // harness outputs
+	Epoch      int
+	W          *Worker
+	AccessLog  *AccessLog
+	Tree       map[int]bool // objects reachable from the parsed function (C05 frame)
+	treeSnap   map[int]string
+	globSnap   map[int]string
 	poisonHits []string
-	violExtra []*Term
-	outVals   []outVal
-	reApps    []reApp
-	owned     map[int]bool // objects owned through sync.Pool.Get
-	bdom      map[*Term]byteSet
+	violExtra  []*Term
+	outVals    []outVal
+	reApps     []reApp
+	owned      map[int]bool // objects owned through sync.Pool.Get
+	bdom       map[*Term]byteSet
 	twinLeaves []twinLeaf
-	Approx    bool // an over-approximating stub was used on this path
-	steps     int
+	Approx     bool // an over-approximating stub was used on this path
+	steps      int
 }
 
 func (s *State) clone() *State {
